@@ -48,7 +48,7 @@ be read to allow — and the parser model rejects; each with a concrete document
      without its object and rejects it.
 
 Separate hypotheses of the theorem (parameters of the parser, not of the document's validity):
-`parseDepth j ≤ 128` (the depth limit of `serde_json`, as the model `rawOfJson` counts it),
+`jsonNesting j ≤ 127` (the recursion limit of `serde_json`: arrays / objects nested at most 127 deep),
 `schemaSize j ≤ n` (fuel of the registration), and `NoUnconditionalCycle j` (the specification
 allows `record R { f : R }`; the crate rejects a record that unconditionally contains itself
 since no finite value of it exists; `noUnconditionalCycleB` is a decidable test for it).
@@ -233,14 +233,15 @@ def shape (j : Json) : Bool := (canon none j).isSome
 def ValidDoc (j : Json) : Bool :=
   shape j && noForwardRefs j && namesDistinct j && wellTyped j
 
-/-! ### parameters of the parser: depth and size of the document -/
+/-! ### parameters of the model: gas of the reader, size of the document -/
 
 mutual
 
-/-- Nesting depth of the document as the model of the parser (`rawOfJson`, fuel 128 for the depth
-    limit of `serde_json`) counts it: one level per JSON string or array, two per object, and —
-    an artefact of the model, which makes the bound conservative — one more for every preceding
-    branch of a union / field of a record. -/
+/-- The gas the reader model `rawOfJson` consumes on the document: one unit per JSON string or
+    array, two per object, one per preceding branch of a union / field of a record.  Not a
+    property of the crate: `parseJson` gives the reader `rawGas j`, which is always at least this
+    (`parseDepth_le_rawGas`), so that the gas never decides (`rawOfJson_gas_irrelevant`); the
+    depth limit of the crate is `Impl.jsonNesting j ≤ 127`. -/
 def parseDepth : Json → Nat
   | .arr branches => 1 + depthList branches
   | .obj ms => 2 + max (max (depthAttr "items" ms) (depthAttr "values" ms)) (depthFieldsAttr ms)
